@@ -196,7 +196,9 @@ class Agg:
             elif isinstance(v, dict):
                 d = self.info.setdefault(k, {})
                 for kk, vv in v.items():
-                    if isinstance(vv, (int, float)):
+                    if isinstance(vv, (int, float)) and k.startswith('max'):
+                        d[kk] = max(d.get(kk, 0), vv)
+                    elif isinstance(vv, (int, float)):
                         d[kk] = d.get(kk, 0) + vv
                     else:
                         d[kk] = vv
